@@ -112,3 +112,53 @@ pub fn run_pauli(case: &Value) -> Value {
     out["mode"] = json!(mode);
     out
 }
+
+/// op "pauli_exp": apply_exp / apply_exp_factor / apply_exp_neg_i_dt and the group law, on the real crate.
+/// The libm values the model needs (e^alpha, cosh alpha, sinh alpha) are computed HERE with num_complex on the
+/// alpha the harness derives from the case; nothing is read back from the code under test.
+pub fn run_pauli_exp(case: &Value) -> Value {
+    let mode = case["mode"].as_str().unwrap();
+    let st = state_of(case);
+    let thr = case.get("thr").map(vu).unwrap_or(10);
+    let hook = &quant_iron::verif_hooks::PARALLEL_THRESHOLD;
+    hook.set(thr);
+    let ps = build_ps(&case["term"], None);
+    let coef = ps.coefficient();
+    let factor = case.get("factor").map(cx).unwrap_or(Complex::new(1.0, 0.0));
+    let dt = case.get("dt").map(vf).unwrap_or(0.0);
+    let cj = |z: Complex<f64>| json!([hexf(z.re), hexf(z.im)]);
+    let mut out = match mode {
+        "exp" | "exp_factor" | "neg_i_dt" => {
+            let alpha = match mode { "exp" => coef, "exp_factor" => coef * factor, _ => coef * Complex::new(0.0, -dt) };
+            let r = match mode {
+                "exp" => ps.apply_exp(&st),
+                "exp_factor" => ps.apply_exp_factor(&st, factor),
+                _ => ps.apply_exp_neg_i_dt(&st, dt),
+            };
+            let mut o = state_json(r);
+            o["alpha"] = cj(alpha); o["ea"] = cj(alpha.exp()); o["ch"] = cj(alpha.cosh()); o["sh"] = cj(alpha.sinh());
+            o
+        }
+        "group" => {
+            // E_a(E_b psi) vs E_{a+b} psi, and E_0 psi vs psi; a = coefficient, b = case["b"], sum given by the case
+            let b = cx(&case["b"]);
+            let sum = cx(&case["sum"]);
+            let mk = |c: Complex<f64>| { let mut t = case["term"].clone(); t["coef"] = json!([hexf(c.re), hexf(c.im)]); build_ps(&t, None) };
+            let r = (|| -> Result<(State, State, State), quant_iron::errors::Error> {
+                let eb = mk(b).apply_exp(&st)?;
+                let eab = mk(coef).apply_exp(&eb)?;
+                let esum = mk(sum).apply_exp(&st)?;
+                let e0 = mk(Complex::new(0.0, 0.0)).apply_exp(&st)?;
+                Ok((eab, esum, e0))
+            })();
+            match r {
+                Ok((eab, esum, e0)) => json!({"r": "ok", "eab": cs_json(&eab.state_vector), "esum": cs_json(&esum.state_vector), "e0": cs_json(&e0.state_vector)}),
+                Err(e) => json!({"r": "err", "e": format!("{:?}", e)}),
+            }
+        }
+        _ => json!({"r": "harness_error", "e": format!("unknown pauli_exp mode {}", mode)}),
+    };
+    hook.set(10);
+    out["readback"] = json!([ps_json(&ps)]);
+    out
+}
